@@ -31,6 +31,8 @@ def run(tier):
                                                "frag_heavy", "same", "attached", "use_smiles")},
                  replay={"src": e["src"], "frag_smiles": e["frag_smiles"]})
     rep.extra.update(info)
+    from harness import missing_graph
+    missing_graph.run(rep, tier, wd)
     rep.extra["model_drift_count"] = len(drift)
     rep.extra["model_drift"] = drift[:5]
     m2 = [e for e in events.values() if e["ev"] == "merge2"]
